@@ -9,62 +9,69 @@ from ..util import require_func, calls_in, call_attr, is_name, const_str, kwarg,
 MUTATORS = {"append", "extend", "update", "pop", "popitem", "sort", "clear", "setdefault", "remove", "insert", "reverse", "__setitem__", "__delitem__"}
 
 
+def _traces(ctx, func, args, self_obj=None, overrides=None, summaries=None, copy_args=True):
+    from ..absint import Interp, Unsupported
+    it = Interp(ctx, overrides=overrides or {})
+    for k, v in (summaries or {}).items():
+        it.summaries[k] = v
+    try:
+        return it.run(func, args, self_obj=self_obj, copy_args=copy_args)
+    except Unsupported as e:
+        ctx.require(False, "%s outside the analysable subset: %s" % (func.qual, e))
+
+
+def _attrs_obj(d=None):
+    from ..absint import Opaque
+    o = Opaque("A", "Attributes")
+    o.attrs["_d"] = dict(d or {})
+    return o
+
+
 def r1(ctx):
+    """The container: what ends up in the underlying mapping for scalars, lists and tuples, through item assignment,
+    update() and construction -- by abstract evaluation of the class's own methods."""
+    from ..absint import Opaque, Sym
     A = ctx.proj.cls("attributes.Attributes")
-    n_writes = 0
     for m in A.methods.values():
         ctx.touch(m)
-        for n in ast.walk(m.node):
-            tg = []
-            if isinstance(n, ast.Assign):
-                tg = n.targets
-            elif isinstance(n, (ast.AugAssign, ast.AnnAssign)):
-                tg = [n.target]
-            elif isinstance(n, ast.Delete):
-                tg = n.targets
-            for t in tg:
-                s = norm(t)
-                if s == "self._d":
-                    ok = m.name == "__init__" and isinstance(n, ast.Assign) and norm(n.value) in ("dict()", "{}")
-                    ctx.ob("R1", ok, "the underlying mapping is created empty, once, in __init__", node=n, func=m, sig="%s: %s" % (m.name, norm(n)))
-                elif s.startswith("self._d["):
-                    n_writes += 1
-                    ok = (m.name == "__setitem__" and isinstance(n, ast.Assign)) or (m.name == "__delitem__" and isinstance(n, ast.Delete))
-                    ctx.ob("R1", ok, "values enter the underlying mapping only through __setitem__ (and leave through __delitem__)", node=n, func=m,
-                           sig="%s writes %s" % (m.name, s))
-            if isinstance(n, ast.Call) and isinstance(n.func, ast.Attribute) and n.func.attr in MUTATORS and norm(n.func.value).startswith("self._d"):
-                ctx.ob("R1", False, "values enter the underlying mapping only through __setitem__", node=n, func=m,
-                       sig="%s mutates the raw mapping: %s" % (m.name, norm(n)))
-    ctx.floor("R1", n_writes, 2, "writes of Attributes._d items")
     si = A.methods.get("__setitem__")
     ctx.require(si is not None, "Attributes.__setitem__ vanished")
-    k, v = [p for p in si.params if p != "self"][:2]
-    cfg = cfg_of(si)
-    stores = [n for n in ast.walk(si.node) if isinstance(n, ast.Assign) and norm(n.targets[0]) == "self._d[%s]" % k]
-    wraps = [n for n in ast.walk(si.node) if isinstance(n, ast.If) and isinstance(n.test, ast.UnaryOp) and isinstance(n.test.op, ast.Not)
-             and isinstance(n.test.operand, ast.Call) and is_name(n.test.operand.func, "isinstance") and is_name(n.test.operand.args[0], v)
-             and any(isinstance(b, ast.Assign) and is_name(b.targets[0], v) and norm(b.value) == "[%s]" % v for b in n.body)]
-    ok = len(stores) == 1 and len(wraps) == 1 and cfg.dominates(cfg.node_for(wraps[0]).id, cfg.node_for(stores[0]).id) and is_name(stores[0].value, v)
-    ctx.ob("R1", ok, "a scalar is wrapped into a one-item list before it is stored", func=si,
-           sig="wrap dominates the store" if ok else "value stored without (or before) the list wrap")
-    if wraps:
-        types = wraps[0].test.operand.args[1]
-        names = sorted(norm(e) for e in (types.elts if isinstance(types, ast.Tuple) else [types]))
-        ctx.ob("R1", names == ["list", "tuple"], "sequences (list, tuple) are stored as they are", func=si, sig="unwrapped types %s" % names)
+    k_, v_ = [p for p in si.params if p != "self"][:2]
+    sv = Sym("v", "str", True)
+    L, T = [sv, Sym("w", "str", True)], (sv,)
+    for label, val, want in (("a scalar", sv, [sv]), ("a list", L, L), ("a tuple", T, T), ("an empty string", "", [""]), ("None", None, [None]), ("a number", 5, [5])):
+        o = _attrs_obj()
+        _traces(ctx, si, {k_: "key", v_: val}, self_obj=o, copy_args=False)
+        got = o.attrs["_d"].get("key", "missing")
+        same = got is val if isinstance(val, (list, tuple)) else (isinstance(got, list) and len(got) == 1 and (got[0] is val or got[0] == val))
+        ctx.ob("R1", same, "a scalar is wrapped into a one-item list before it is stored; sequences (list, tuple) are stored as they are", func=si,
+               sig="storing %s -> %s" % (label, "as is" if isinstance(val, (list, tuple)) and same else "one-item list" if same else repr(got)))
     up = A.methods.get("update")
-    ctx.require(up is not None, "Attributes.update vanished")
-    st = [n for n in ast.walk(up.node) if isinstance(n, ast.Assign) and isinstance(n.targets[0], ast.Subscript) and is_name(n.targets[0].value, "self")]
-    ok = len(st) == 1 and enclosing(st[0], ast.For) is not None
-    ctx.ob("R1", ok, "update() routes every item through self[k] = v", func=up, sig="update stores through %s" % ([norm(s.targets[0]) for s in st] or "something else"))
     ini = A.methods.get("__init__")
-    ok = any(call_attr(c) == "update" and is_name(c.func.value, "self") and any(isinstance(a, ast.Starred) for a in c.args) for c in calls_in(ini.node))
-    ctx.ob("R1", ok, "construction routes its arguments through update()", func=ini, sig="__init__ calls self.update(*args, **kwargs)" if ok else "__init__ bypasses update()")
+    ctx.require(up is not None and ini is not None, "Attributes.update / __init__ vanished")
+    o = _attrs_obj()
+    _traces(ctx, up, {"args": ({"a": sv, "b": L},), "c": "z"}, self_obj=o, copy_args=False)
+    d = o.attrs["_d"]
+    ok = isinstance(d.get("a"), list) and d.get("a") == [sv] and d.get("b") is L and d.get("c") == ["z"]
+    ctx.ob("R1", ok, "update() routes every item through the same wrap", func=up, sig="update({a: scalar, b: list}, c=scalar) stores %s" % {k: ("list" if isinstance(v, list) else type(v).__name__) for k, v in d.items()})
+    o = Opaque("A", "Attributes")
+    _traces(ctx, ini, {"args": ({"a": sv, "b": L},), "c": "z"}, self_obj=o, copy_args=False)
+    d = o.attrs.get("_d", {})
+    ok = isinstance(d, dict) and isinstance(d.get("a"), list) and d.get("a") == [sv] and d.get("b") is L and d.get("c") == ["z"]
+    ctx.ob("R1", ok, "construction routes its arguments through the same wrap", func=ini, sig="Attributes({a: scalar, b: list}, c=scalar) stores %s" % (
+        {k: ("list" if isinstance(v, list) else type(v).__name__) for k, v in d.items()} if isinstance(d, dict) else d))
+    o = Opaque("A", "Attributes")
+    _traces(ctx, ini, {}, self_obj=o, copy_args=False)
+    ctx.ob("R1", o.attrs.get("_d") == {}, "the underlying mapping is created empty", func=ini, sig="Attributes() stores %r" % (o.attrs.get("_d"),), nontrivial=False)
     fs = require_func(ctx, "feature.Feature.__setitem__")
-    st = [n for n in ast.walk(fs.node) if isinstance(n, ast.Assign) and norm(n.targets[0]).startswith("self.attributes[")]
-    g = [(norm(t), pol) for t, pol in guards_of(st[0], fs.node)] if st else None
-    ok = len(st) == 1 and g == [("isinstance(key, int)", False)]
-    ctx.ob("R1", ok, "feature[key] = value with a non-integer key delegates to the attribute mapping", func=fs, sig="Feature.__setitem__ delegates under %s" % (g,))
+    F = Opaque("F", "Feature")
+    am = _attrs_obj()
+    F.attrs.update(dict(attributes=am, seqid="chr1", start=1))
+    _traces(ctx, fs, {"key": "Name", "value": sv}, self_obj=F, copy_args=False)
+    ok = am.attrs["_d"].get("Name") == [sv]
+    ctx.ob("R1", ok, "feature[key] = value with a non-integer key delegates to the attribute mapping (and is wrapped there)", func=fs, sig="feature['Name'] = scalar stores %r" % (am.attrs["_d"].get("Name"),))
     # nobody else writes the raw mapping
+    n_w = 0
     for f in ctx.proj.funcs.values():
         if f.cls is A:
             continue
@@ -72,9 +79,12 @@ def r1(ctx):
             tg = n.targets if isinstance(n, ast.Assign) else [n.target] if isinstance(n, ast.AugAssign) else n.targets if isinstance(n, ast.Delete) else []
             for t in tg:
                 if re.search(r"\._d\b", norm(t)):
+                    n_w += 1
                     ctx.ob("R1", False, "only the container writes its raw mapping", node=n, func=f, sig="%s writes %s" % (f.qual, norm(t)))
             if isinstance(n, ast.Call) and isinstance(n.func, ast.Attribute) and n.func.attr in MUTATORS and re.search(r"\._d\b", norm(n.func.value)):
+                n_w += 1
                 ctx.ob("R1", False, "only the container writes its raw mapping", node=n, func=f, sig="%s mutates %s" % (f.qual, norm(n.func.value)))
+    ctx.ob("R1", n_w == 0, "only the container writes its raw mapping", func=si, sig="no write of ._d outside Attributes", nontrivial=False)
 
 
 def r2(ctx):
@@ -94,16 +104,22 @@ def r2(ctx):
         ctx.ob("R2", ok, "the always_return_list switch is consulted only when a value is viewed (Attributes.__getitem__)", node=n, func=f,
                sig="always_return_list read in %s" % f.qual.split(".", 1)[1])
     gi = A.methods.get("__getitem__")
-    cfg = cfg_of(gi)
-    rets = [n for n in ast.walk(gi.node) if isinstance(n, ast.Return)]
-    first = [r for r in rets if any(norm(t) == "constants.always_return_list" and pol for t, pol in guards_of(r, gi.node))]
-    ok = len(first) == 1 and is_name(first[0].value, "v")
-    ctx.ob("R2", ok, "with the switch on, the stored list is returned as is", func=gi, sig="switch on -> %s" % (norm(first[0].value) if first else None))
-    un = [n for n in ast.walk(gi.node) if isinstance(n, ast.If) and "len(v) == 1" in norm(n.test)]
-    ok = len(un) == 1 and any(isinstance(b, ast.Assign) and norm(b.value) == "v[0]" for b in un[0].body)
-    ctx.ob("R2", ok, "with the switch off, only a one-item list is viewed as its item", func=gi, sig="switch off -> %s" % (norm(un[0].test) if un else None))
-    stores = [n for n in ast.walk(gi.node) if isinstance(n, (ast.Assign, ast.AugAssign)) and "self._d" in norm(n.targets[0] if isinstance(n, ast.Assign) else n.target)]
-    ctx.ob("R2", not stores, "viewing never changes what is stored", func=gi, sig="__getitem__ stores %s" % [norm(s) for s in stores])
+    from ..absint import Sym
+    kp = [p for p in gi.params if p != "self"][0]
+    one, two = [Sym("v", "str", True)], [Sym("v", "str", True), Sym("w", "str", True)]
+    tup = (Sym("v", "str", True),)
+    for switch in (True, False):
+        for label, stored, want_unwrap in (("a one-item list", one, not switch), ("a two-item list", two, False), ("a one-item tuple", tup, False), ("an empty list", [], False)):
+            o = _attrs_obj({"key": stored})
+            traces = _traces(ctx, gi, {kp: "key"}, self_obj=o, overrides={("constants", "always_return_list"): switch}, copy_args=False)
+            r = traces[0].result
+            got = r[1] if r[0] == "return" else r
+            ok = (got is stored[0]) if want_unwrap else (got is stored)
+            ctx.ob("R2", ok and len(traces) == 1, ("with the switch on, the stored list is returned as is" if switch else
+                                                  "with the switch off, only a one-item list is viewed as its item"), func=gi,
+                   sig="always_return_list=%s, %s -> %s" % (switch, label, "its item" if got is (stored[0] if stored else None) and stored else "the stored value" if got is stored else repr(got)))
+            ctx.ob("R2", o.attrs["_d"].get("key") is stored, "viewing never changes what is stored", func=gi, sig="after viewing %s (switch %s): stored value %s" % (
+                label, switch, "unchanged" if o.attrs["_d"].get("key") is stored else "replaced"), nontrivial=False)
     # bed12 saves and restores
     for f, n in writers:
         ctx.ob("R2", f.qual == "interface.FeatureDB.bed12", "the switch is only ever set (temporarily) by bed12", node=n, func=f,
@@ -122,83 +138,70 @@ def r2(ctx):
 
 
 def r4(ctx):
+    """helpers.merge_attributes evaluated on two small mappings: per key the sorted duplicate-free union, numeric order when
+    asked for and possible, arguments and their lists untouched, nothing shared with the result."""
+    import copy as _copy
     f = require_func(ctx, "helpers.merge_attributes")
-    a1, a2 = f.params[0], f.params[1]
-    tainted = {a1, a2}
-    # loop variables bound from the parameters' items are aliases of the caller's objects
-    for n in ast.walk(f.node):
-        if isinstance(n, ast.For) and any(isinstance(x, ast.Name) and x.id in (a1, a2) for x in ast.walk(n.iter)):
-            for x in ast.walk(n.target):
-                if isinstance(x, ast.Name):
-                    tainted.add(x.id)
-    rebound = set()
-    bad = []
-    for n in ast.walk(f.node):
-        tg = n.targets if isinstance(n, ast.Assign) else [n.target] if isinstance(n, ast.AugAssign) else n.targets if isinstance(n, ast.Delete) else []
-        for t in tg:
-            b = t
-            while isinstance(b, (ast.Attribute, ast.Subscript)):
-                b = b.value
-            if isinstance(b, ast.Name) and b.id in tainted and not isinstance(t, ast.Name):
-                bad.append(n)
-        if isinstance(n, ast.Call) and isinstance(n.func, ast.Attribute) and n.func.attr in MUTATORS:
-            b = n.func.value
-            while isinstance(b, (ast.Attribute, ast.Subscript)):
-                b = b.value
-            if isinstance(b, ast.Name) and b.id in tainted:
-                # `v = [v]` re-binds the alias to a fresh list before any mutation?  be strict: report
-                bad.append(n)
-    ctx.ob("R4", not bad, "merge_attributes never stores through its arguments or their values", func=f,
-           sig="no store through the arguments" if not bad else "store through an argument: %s" % norm(bad[0]))
-    # every flow of an argument as a value goes through deepcopy
-    flows = []
-    for n in ast.walk(f.node):
-        if isinstance(n, ast.Name) and n.id in (a1, a2) and isinstance(n.ctx, ast.Load):
-            par = n._parent
-            if isinstance(par, ast.Attribute) and par.attr in ("items", "keys", "values", "get"):
-                continue
-            if isinstance(par, ast.Compare):
-                continue
-            if isinstance(par, ast.Subscript) and par.value is n and isinstance(par.ctx, ast.Load) and not isinstance(getattr(par, "_parent", None), (ast.Call,)):
-                continue
-            flows.append((n, par))
-    ctx.floor("R4", len(flows), 2, "value uses of the two argument mappings")
-    for n, par in flows:
-        ok = isinstance(par, ast.Call) and norm(par.func) in ("copy.deepcopy", "deepcopy") and par.args and par.args[0] is n
-        ctx.ob("R4", ok, "each argument mapping is deep-copied before it is merged into the result", node=n, func=f,
-               sig="%s flows through deepcopy" % n.id if ok else "%s used without deepcopy: %s" % (n.id, norm(par)[:60]))
-    # per key: sorted duplicate-free union
-    rets = [n for n in ast.walk(f.node) if isinstance(n, ast.Return)]
-    plain = [r for r in rets if any((norm(t) == "numeric_sort" and not pol) or (norm(t) == "not numeric_sort" and pol) for t, pol in guards_of(r, f.node))]
-    ok = len(plain) == 1 and "sorted(set(v))" in norm(plain[0].value)
-    ctx.ob("R4", ok, "without numeric_sort each key maps to sorted(set(values))", func=f, sig="plain result %s" % (norm(plain[0].value) if plain else None))
-    tries = [n for n in ast.walk(f.node) if isinstance(n, ast.Try)]
-    ok = len(tries) == 1 and any(h.type is not None and "ValueError" in norm(h.type) for h in tries[0].handlers)
-    body = " ".join(norm(b) for b in tries[0].body) if tries else ""
-    hb = " ".join(norm(b) for h in (tries[0].handlers if tries else []) for b in h.body)
-    ok = ok and "float(v)" in body and "set(values)" in body and "sorted(" in body and "sorted(set(values))" in hb
-    ctx.ob("R4", ok, "with numeric_sort values are ordered by float value when all are numbers, else as without", func=f,
-           sig="numeric sort with ValueError fallback to sorted(set(values))" if ok else "numeric sort path changed: try=%s except=%s" % (body[:60], hb[:40]))
-    ext = [c for c in calls_in(f.node) if call_attr(c) == "extend"]
-    ok = len(ext) == 1 and norm(ext[0].func.value) == "new_d[k]" and any(norm(t) == "k in %s" % a2 and pol for t, pol in guards_of(ext[0], f.node))
-    lp = enclosing(ext[0], ast.For) if ext else None
-    ok = ok and lp is not None and norm(lp.iter) == "%s.items()" % a1
-    ctx.ob("R4", ok, "for keys present in both, the first mapping's values are added to the (copied) second mapping's", func=f,
-           sig="union: %s over %s" % (norm(ext[0]) if ext else None, norm(lp.iter) if lp is not None else None))
+    a1n, a2n = f.params[0], f.params[1]
+    ns = f.params[2] if len(f.params) > 2 else "numeric_sort"
+
+    def run(a1, a2, **kw):
+        a = {a1n: a1, a2n: a2}
+        a.update(kw)
+        traces = _traces(ctx, f, a, copy_args=False)
+        ctx.require(len(traces) == 1, "merge_attributes forks on concrete input")
+        return traces[0].result
+    a1 = {"k": ["b", "a"], "x": ["1"], "n": ["10", "9"], "m": ["a", "10"], "s": "scalar"}
+    a2 = {"k": ["c", "a"], "n": ["100"], "m": ["b"], "y": ["2", "2"]}
+    s1, s2 = _copy.deepcopy(a1), _copy.deepcopy(a2)
+    r = run(a1, a2)
+    want = {"k": ["a", "b", "c"], "x": ["1"], "n": ["10", "100", "9"], "m": ["10", "a", "b"], "s": ["scalar"], "y": ["2"]}
+    got = r[1] if r[0] == "return" else r
+    ctx.ob("R4", got == want, "without numeric_sort each key maps to the sorted, duplicate-free union of both mappings' values (scalars count as one value)", func=f,
+           sig="plain result %s" % (got,))
+    ctx.ob("R4", a1 == s1 and a2 == s2, "merge_attributes never stores through its arguments or their values", func=f,
+           sig="no store through the arguments" if a1 == s1 and a2 == s2 else "arguments changed: %s / %s" % (a1, a2))
+    shared = isinstance(got, dict) and any(v is w for v in got.values() for w in list(a1.values()) + list(a2.values()) if isinstance(w, list))
+    ctx.ob("R4", not shared, "the result shares no list with its arguments", func=f, sig="result lists are fresh" if not shared else "a result list is an argument's list")
+    r = run(_copy.deepcopy(a1), _copy.deepcopy(a2), **{ns: True})
+    got = r[1] if r[0] == "return" else r
+    want_n = dict(want, n=["9", "10", "100"])
+    ctx.ob("R4", got == want_n, "with numeric_sort values are ordered by float value when all are numbers, else as without", func=f, sig="numeric result %s" % (got,))
+    r = run({"v": ["5", "5.0"]}, {"v": ["4", "5"]}, **{ns: True})
+    got = r[1] if r[0] == "return" else r
+    ctx.ob("R4", got == {"v": ["4", "5", "5.0"]}, "numeric order never drops a value: different spellings of one number are all kept", func=f, sig="numeric result for 5, 5.0, 4, 5: %s" % (got,))
+    r = run({}, {})
+    ctx.ob("R4", r == ("return", {}), "two empty mappings give an empty mapping", func=f, sig="empty result %s" % (r[1:2],), nontrivial=False)
 
 
 def r5(ctx):
-    for name, want in (("__hash__", "hash(str(self))"), ("__eq__", "str(self) == str(other)"), ("__ne__", "str(self) != str(other)")):
+    """Equality and hash are functions of the printed line: evaluated with str() of three features summarised as L1, L1, L2."""
+    from ..absint import Opaque
+    lines = {"A": "L1", "B": "L1", "C": "L2"}
+    summ = {"feature.Feature.__str__": lambda i, pos, kw, node: lines[pos[0].name], "feature.Feature.__unicode__": lambda i, pos, kw, node: lines[pos[0].name]}
+
+    def mk(n):
+        o = Opaque(n, "Feature")
+        o.attrs["id"] = "same-id"
+        return o
+    for name, table in (("__eq__", {("A", "B"): True, ("A", "C"): False, ("A", "A"): True}), ("__ne__", {("A", "B"): False, ("A", "C"): True, ("A", "A"): False})):
         f = require_func(ctx, "feature.Feature." + name)
-        r = [n for n in ast.walk(f.node) if isinstance(n, ast.Return)]
-        got = norm(r[0].value) if len(r) == 1 else None
-        alts = {want, want.replace("str(self) == str(other)", "str(other) == str(self)"), want.replace("str(self) != str(other)", "not self == other"),
-                want.replace("str(self) != str(other)", "not self.__eq__(other)")}
-        ctx.ob("R5", got in alts, "Feature.%s is a function of the printed line only" % name, func=f, sig="%s = %s" % (name, got))
+        op = [p for p in f.params if p != "self"][0]
+        got = {}
+        for (x, y), want in table.items():
+            tr = _traces(ctx, f, {op: mk(y)}, self_obj=mk(x), summaries=summ)
+            got[(x, y)] = tr[0].result[1] if len(tr) == 1 and tr[0].result[0] == "return" else tr[0].result
+        ctx.ob("R5", got == table, "Feature.%s is a function of the printed line only" % name, func=f, sig="%s on lines (L1,L1), (L1,L2), same object: %s" % (name, [got[k] for k in table]))
+    f = require_func(ctx, "feature.Feature.__hash__")
+    hs = {}
+    for n in ("A", "B", "C"):
+        tr = _traces(ctx, f, {}, self_obj=mk(n), summaries=summ)
+        hs[n] = tr[0].result[1] if tr[0].result[0] == "return" else tr[0].result
+    ok = hs["A"] == hs["B"] == ("hash-of", "L1") and hs["C"] == ("hash-of", "L2")
+    ctx.ob("R5", ok, "Feature.__hash__ is a function of the printed line only (equal lines hash alike)", func=f, sig="hashes: %s" % hs)
     st = require_func(ctx, "feature.Feature.__str__")
-    r = [n for n in ast.walk(st.node) if isinstance(n, ast.Return)]
-    ok = len(r) == 1 and norm(r[0].value) == "self.__unicode__()"
-    ctx.ob("R5", ok, "str(feature) is the printed line", func=st, sig="__str__ = %s" % (norm(r[0].value) if r else None))
+    tr = _traces(ctx, st, {}, self_obj=mk("C"), summaries={"feature.Feature.__unicode__": summ["feature.Feature.__unicode__"]})
+    ctx.ob("R5", tr[0].result == ("return", "L2"), "str(feature) is the printed line", func=st, sig="__str__ -> %r" % (tr[0].result[1:2],), nontrivial=False)
 
 
 def check(ctx):
